@@ -22,7 +22,7 @@ import shutil
 from harness import core
 from harness.extractors.job_skeleton import extract_job_skeleton
 from harness.engines import audittrace as at
-from harness.engines.cachehist import private_hash_cache
+from harness.engines.cachehist import ChildRunner
 
 META = {
     "engine": "JobProto",
@@ -38,7 +38,7 @@ META = {
     "job's own id and name; C36_monitor — one monitor activity per job under ALL.  C36_witness_shared documents the repaired "
     "defect D21 (one shared Audit object: the workflow's activity has no end record, the last node's has two), "
     "C36_shared_partial that sharing is harmless without nesting.  Tied to pydra/engine/audit.py, utils/messenger.py, "
-    "engine/job.py by parsing the emitted JSON-LD files (no network: the context is only named, never fetched).",
+    "engine/job.py by parsing the emitted JSON-LD files (no network: the context is only named, never fetched). C36_skeleton (decide over the regenerated skeleton of Job.run / run_async): start_audit once before and finalize_audit once after the body (in finally, before the result is saved) on every executing path, neither on a cached path, audit_task only in the synchronous run under PROV.",
     "note": "Trusted: Lean kernel; hand-written model AuditTrace.lean; uuid4 never repeats; the expected execution forest of "
     "each pool entry; nesting is read off timestamps (sequential siblings only under cf).",
     "rule": "case = (pool task, input, worker, flag); distinct by canonical JSON; non-trivial = more than one executed job or a "
@@ -68,7 +68,20 @@ EXTRACTORS = [extract_job_skeleton]
 MODEL_TARGETS = ["PydraModel.JobProto.AuditTrace", "PydraModel.DriverUtil"]
 
 NAMES = sorted(at.pool(0))
+CORPUS = core.VERIF / "corpus" / "audit" / "cases.jsonl"
 D21_WITNESS = {"name": "w2", "x": 1, "worker": "debug", "flags": "PROV"}
+
+
+def load_corpus():
+    import json
+
+    out = []
+    for l in CORPUS.read_text().splitlines():
+        if l.strip() and not l.startswith("#"):
+            c = json.loads(l)
+            c.pop("note", None)
+            out.append(c)
+    return out
 
 
 def gen_case(rng, worker="debug") -> dict:
@@ -76,16 +89,19 @@ def gen_case(rng, worker="debug") -> dict:
     return {"name": rng.choice(names), "x": rng.randrange(1000), "worker": worker, "flags": rng.choice(["PROV", "PROV", "ALL"])}
 
 
+WATCHDOG_S = float(__import__("os").environ.get("VERIF_WATCHDOG_S", "900"))  # per case; generous: the machine may be heavily loaded
+
+
 def run_cases(ctx, cases):
-    private_hash_cache(ctx.scratch)
     impls = []
-    for c in cases:
-        sb = ctx.scratch / f"c36-{len(impls)}-{ctx.rng.randrange(10**9)}"
-        sb.mkdir()
-        task, forest = at.pool(c["x"])[c["name"]]
-        msgs, stored, outcome = at.run_impl(task, c["worker"], c["flags"], sb)
-        impls.append((forest, msgs, stored, outcome))
-        shutil.rmtree(sb, ignore_errors=True)
+    for c, r in zip(cases, ChildRunner("harness.engines.audittrace:child_case", ctx.scratch, WATCHDOG_S).run(cases, "c36")):
+        forest = at.pool(c["x"])[c["name"]][1]
+        if "ok" in r:
+            impls.append((forest, r["ok"]["msgs"], r["ok"]["stored"], r["ok"]["outcome"]))
+        elif "harness_error" in r:
+            raise RuntimeError("harness function failed in the child: " + r["harness_error"] + "\n" + r.get("trace", ""))
+        else:  # the submission never returned (or killed its interpreter): a finding about this case
+            impls.append((forest, [], [], "HANG" if "hang" in r else "CRASH"))
     ans = ctx.driver(
         "AuditTrace",
         [
@@ -117,10 +133,12 @@ def run_cases(ctx, cases):
 def correspondence(ctx):
     core.assert_repo_loaded()
     # corpus first: the witness of the repaired defect D21 (must pass), then every pool entry once under debug/PROV
-    cases = [D21_WITNESS, dict(D21_WITNESS, flags="ALL")]
+    corpus = load_corpus()
+    assert corpus[0] == D21_WITNESS
+    cases = [c for c in corpus if c["worker"] == "debug"]
     cases += [{"name": n, "x": 3, "worker": "debug", "flags": "PROV"} for n in NAMES]
-    cases += [gen_case(ctx.rng, "debug") for _ in range(ctx.pick(6, 150))]
-    cf = [dict(D21_WITNESS, worker="cf")] + [gen_case(ctx.rng, "cf") for _ in range(ctx.pick(1, 16))]
+    cases += [gen_case(ctx.rng, "debug") for _ in range(ctx.pick(4, 120))]
+    cf = [c for c in corpus if c["worker"] == "cf"] + [gen_case(ctx.rng, "cf") for _ in range(ctx.pick(1, 12))]
     run_cases(ctx, cases + cf)
 
 
